@@ -204,6 +204,65 @@ theorem parsed_meta_ok (fx : Bool) (proto : Nat) (resp : Bool) (flags op : Nat) 
   rw [h] at this
   exact this
 
+/-! ### nesting depth of parsed type descriptions -/
+
+theorem post_crashAt {α : Type} {Q : α → Prop} (s : Site) : Post Q (crashAt s : P α) := by
+  intro st; trivial
+
+/-- the nesting depth of a parsed type description is bounded by the recursion fuel, i.e. by the
+number of unread body bytes + 1: nothing else bounds it -/
+theorem typeInfo_depth (fx : Bool) : ∀ f : Nat,
+    Post (fun t => tiDepth t ≤ f) (readTypeInfo fx f) ∧
+    (∀ named n, Post (fun ts => tiDepthL ts ≤ f) (typeLoop fx f named n)) := by
+  intro f
+  induction f with
+  | zero =>
+    constructor
+    · unfold readTypeInfo; exact post_crashAt _
+    · intro named n; unfold typeLoop; exact post_crashAt _
+  | succ f ih =>
+    obtain ⟨ihT, ihL⟩ := ih
+    constructor
+    · unfold readTypeInfo
+      refine post_bind_any (fun id => ?_)
+      refine post_bind_any (fun typ => ?_)
+      refine post_ite ?_ (post_ite ?_ (post_ite ?_ (post_ite ?_ ?_)))
+      · refine post_bind_any (fun n => ?_)
+        refine post_bind_any (fun _ => ?_)
+        refine post_bind_any (fun _ => ?_)
+        refine post_bind _ (ihL false n) (fun es hes => ?_)
+        exact post_pure (by simp [tiDepth]; omega)
+      · refine post_bind_any (fun _ => ?_)
+        refine post_bind_any (fun _ => ?_)
+        refine post_bind_any (fun n => ?_)
+        refine post_bind_any (fun _ => ?_)
+        refine post_bind_any (fun _ => ?_)
+        refine post_bind _ (ihL true n) (fun es hes => ?_)
+        exact post_pure (by simp [tiDepth]; omega)
+      · refine post_bind _ ihT (fun k hk => ?_)
+        refine post_bind _ ihT (fun v hv => ?_)
+        exact post_pure (by simp [tiDepth]; omega)
+      · refine post_bind _ ihT (fun e he => ?_)
+        exact post_pure (by simp [tiDepth]; omega)
+      · exact post_pure (by simp [tiDepth])
+    · intro named n
+      unfold typeLoop
+      cases n with
+      | zero => exact post_pure (by simp [tiDepthL])
+      | succ n =>
+        simp only []
+        refine post_bind_any (fun _ => ?_)
+        refine post_bind _ ihT (fun t ht => ?_)
+        refine post_bind _ (ihL named n) (fun ts hts => ?_)
+        exact post_pure (by simp [tiDepthL]; omega)
+
+theorem typeInfoTop_depth (fx : Bool) (st : St) (t : TI) (st' : St) (h : readTypeInfoTop fx st = .ok t st') :
+    tiDepth t ≤ st.buf.length + 1 := by
+  have := (typeInfo_depth fx (st.buf.length + 1)).1 st
+  unfold readTypeInfoTop at h
+  rw [h] at this
+  exact this
+
 /-! ### Iter.RowData / goType -/
 
 /-- goType panics only through reflect.MapOf on a non-comparable key — and not at all once the
